@@ -11,7 +11,7 @@ import sys
 
 import preds
 from lockstep import Recorder, real_simulate, lockstep, free_run
-from real import Index, extract_model, snapshot
+from real import Index, extract_model, snapshot, Unsupported
 
 MODULES = ["tests.model.test_base_project", "tests.model.test_base_subproject_task"]
 
@@ -57,18 +57,30 @@ def run_fixtures(drv, prop_ids):
         for rule in range(9):
             for absence in ([], [1, 3]):
                 project = f()
-                ix = Index(project)
-                model = extract_model(project, ix)
                 params = dict(rule=rule, absence=absence, autoFlag=False, maxTime=100, initState=True, initLog=True)
-                pre = snapshot(project, ix)
+                res = dict(name=name, params=params, dis=[], viol=[], stats={}, exc=None, steps=0)
+                try:
+                    ix = Index(project)
+                    model = extract_model(project, ix)
+                    pre = snapshot(project, ix)
+                except Unsupported as e:   # the real objects are in a state the model cannot represent
+                    res["exc"] = "Unsupported: %s" % e
+                    res["dis"].append(dict(phase="exception", fields=["*"], time=None, detail="state outside the model: %s" % e))
+                    results.append(res)
+                    continue
                 rec = Recorder(ix)
-                res = dict(name=name, params=params, dis=[], viol=[], stats={}, exc=None)
                 try:
                     real_simulate(project, params, rec)
                 except Exception as e:
                     res["exc"] = "%s: %s" % (type(e).__name__, e)
                     res["dis"].append(dict(phase="exception", fields=["*"], time=None, detail=res["exc"]))
-                final = snapshot(project, ix)
+                try:
+                    final = snapshot(project, ix)
+                except Unsupported as e:
+                    res["exc"] = "Unsupported: %s" % e
+                    res["dis"].append(dict(phase="exception", fields=["*"], time=None, detail="state outside the model: %s" % e))
+                    results.append(res)
+                    continue
                 st = {}
                 for d in lockstep(drv, model, params, pre, rec.snaps, st):
                     res["dis"].append(dict(phase=d["phase"], fields=d["fields"], time=d["time"]))
